@@ -138,6 +138,24 @@ func concOps() []concOp {
 			return f + ":file:" + fmt.Sprint(len(b)) + ":" + fnv(string(b))
 		})
 	}
+	ops = append(ops,
+		// languages: a document whose language tag is spelled in another letter case is read; a list in that language
+		// is written
+		func(seed uint64) string {
+			lang := []string{"EN-US", "En", "fr-FR", "FR", "zh", "NO"}[seed%6]
+			d := `<tt xmlns="http://www.w3.org/ns/ttml" xml:lang="` + lang + `"><body><div><p begin="00:00:01.000" end="00:00:02.000">x</p></div></body></tt>`
+			return "ttml-lang-read:" + readOut("ttml", []byte(d))
+		},
+		func(seed uint64) string {
+			s := genSubs(newRng(seed, "subs"), "ttml")
+			s.Metadata = &astisub.Metadata{Language: []string{astisub.LanguageEnglish, astisub.LanguageFrench, astisub.LanguageChinese, astisub.LanguageNorwegian}[seed%4], Title: "t"}
+			var b bytes.Buffer
+			if err := writeRaw("ttml", s, &b); err != nil {
+				return "ttml-lang-write:" + errClass(err)
+			}
+			return "ttml-lang-write:" + encBytes(b.Bytes())
+		},
+	)
 	ops = append(ops, extraConcOps...)
 	return ops
 }
